@@ -55,6 +55,7 @@ func runC03(c *Ctx) {
 	ruleReplyAddr(c, a)
 	ruleSearch(c, "SEARCH", 2)
 	ruleSnapshot(c) // "some key of the list, whatever the list order": the snapshot searched holds every key
+	ruleBufSize(c, a, "BUFSIZE")
 }
 
 func runC04(c *Ctx) {
